@@ -119,7 +119,7 @@ def check(run):
         corpus.dest = {'': {'k': 'dir'}}
         corpus.cfg = dict(RECOVER)
         corpus.tag = 'F4-corpus'
-        scen = [corpus] + [gen(rng) for _ in range(30 if quick else 200)]
+        scen = [corpus] + [gen(rng) for _ in range(30 if quick else 900)]
         # ---- A: failing writes / failing commands at every index ----
         for si, sc in enumerate(scen):
             o0 = sync_e2e.run_scenario(sc, binary, jbin, base)
@@ -157,7 +157,7 @@ def check(run):
                 finally:
                     done(o)
         # ---- B: a kill at every crash point ----
-        for si, sc in enumerate(scen[:(13 if quick else 70)]):
+        for si, sc in enumerate(scen[:(13 if quick else 250)]):
             placement = 'LR' if si % 3 == 2 else 'LL'
             scp = sync_e2e.Scenario.from_json(sc.to_json())
             scp.placement = placement
@@ -194,7 +194,7 @@ def check(run):
                 finally:
                     done(o)
         # ---- C: EFBIG (ulimit -f, 512-byte blocks): partial writes inside a chunk ----
-        for si, sc in enumerate(scen[:(14 if quick else 100)]):
+        for si, sc in enumerate(scen[:(14 if quick else 400)]):
             if not any(n['k'] == 'file' and len(n['data']) > 600 for n in sc.src.values()):
                 continue
             for blocks in (1, 5, 9, 17, 25):
